@@ -145,10 +145,14 @@ theorem eval_Add_agrees (dbg : Bool) (l r : IrValue) (cl cr : CVal)
     refine ⟨_, rfl, ?_⟩
     rw [hb]; exact cg_Add_int _ _ rfl rfl _ _
 
-/-- non-vacuity: `200u8 + 100u8` panics in the debug profile and wraps to 44 in release, where
-    the JIT computes 44 as well; `-3i32 + 5i32` completes in both. -/
+/-- non-vacuity: `-3i32 + 5i32` completes. -/
 example : eval_Add false (.I32 (.ofInt _ _ (-3))) (.I32 (.ofInt _ _ 5)) = .ok (.I32 (.ofInt _ _ (2))) := by
   decide
+
+/-- non-vacuity at the profile split: `200u8 + 100u8` is a loud stop in the debug profile and wraps
+    to 44 in release. -/
+example : eval_Add true (.U8 (.ofInt _ _ 200)) (.U8 (.ofInt _ _ 100)) = .panic
+    ∧ eval_Add false (.U8 (.ofInt _ _ 200)) (.U8 (.ofInt _ _ 100)) = .ok (.U8 (.ofInt _ _ 44)) := by decide
 
 /-- `l - r`: the evaluator's `Sub` arm (Rust `-` on the tag's type: overflow panics in the
     debug profile and wraps in release) against `isub` / `fsub`. -/
@@ -167,8 +171,7 @@ theorem eval_Sub_agrees (dbg : Bool) (l r : IrValue) (cl cr : CVal)
     refine ⟨_, rfl, ?_⟩
     rw [hb]; exact cg_Sub_int _ _ rfl rfl _ _
 
-/-- non-vacuity: `200u8 + 100u8` panics in the debug profile and wraps to 44 in release, where
-    the JIT computes 44 as well; `-3i32 - 5i32` completes in both. -/
+/-- non-vacuity: `-3i32 - 5i32` completes. -/
 example : eval_Sub false (.I32 (.ofInt _ _ (-3))) (.I32 (.ofInt _ _ 5)) = .ok (.I32 (.ofInt _ _ (-8))) := by
   decide
 
@@ -189,8 +192,7 @@ theorem eval_Mul_agrees (dbg : Bool) (l r : IrValue) (cl cr : CVal)
     refine ⟨_, rfl, ?_⟩
     rw [hb]; exact cg_Mul_int _ _ rfl rfl _ _
 
-/-- non-vacuity: `200u8 + 100u8` panics in the debug profile and wraps to 44 in release, where
-    the JIT computes 44 as well; `-3i32 * 5i32` completes in both. -/
+/-- non-vacuity: `-3i32 * 5i32` completes. -/
 example : eval_Mul false (.I32 (.ofInt _ _ (-3))) (.I32 (.ofInt _ _ 5)) = .ok (.I32 (.ofInt _ _ (-15))) := by
   decide
 
